@@ -26,9 +26,11 @@ from .rng import subseed, ReplayDiverged
 from .util import case_digest, short
 
 VERIF = os.path.dirname(os.path.dirname(os.path.abspath(__file__)))
+OUT = os.environ.get('VERIF_OUT') or VERIF  # evidence/ and replays/ go here (self-tests redirect them to a scratch dir)
 RUN_WALL_S = 30  # per simulated run safety net (never a verdict)
 
 
+_DEVNULL = open(os.devnull, 'w')
 _CTX = {'known': {'findings': []}, 'predicates': {}}  # set before the pool forks
 
 
@@ -44,11 +46,14 @@ def guarded_execute(scn, case, mode):
     """execute() with a wall-clock safety net; harness exceptions are tagged, never verdicts."""
     old = signal.signal(signal.SIGALRM, _alarm)
     signal.setitimer(signal.ITIMER_REAL, RUN_WALL_S)
+    saved = sys.stdout
+    sys.stdout = _DEVNULL  # bct prints progress lines; they are not part of any verdict
     try:
         return scn.execute(case, mode)
     except SimHang:
         return {'outcome': 'hang', 'routine': case.get('routine', '?'), 'ndraws': 0, 'msg': 'wall-clock safety net (%ds)' % RUN_WALL_S}
     finally:
+        sys.stdout = saved
         signal.setitimer(signal.ITIMER_REAL, 0)
         signal.signal(signal.SIGALRM, old)
 
@@ -205,7 +210,7 @@ def match_known(known, prop, v, predicates):
 
 
 def write_replay(prop, scn, case, res, note=None):
-    d = os.path.join(VERIF, 'replays', prop)
+    d = os.path.join(OUT, 'replays', prop)
     os.makedirs(d, exist_ok=True)
     payload = {'property': prop, 'scenario': scn.ID, 'vclass': res.get('vclass'), 'msg': res.get('msg'), 'routine': res.get('routine'),
                'repo_rev': env.repo_rev(), 'note': note, 'case': case}
@@ -350,8 +355,8 @@ def run_check(prop, level, scenarios, tier, S, predicates=None, rule='', assumpt
         post(total, per, cov, lines)
     ev = {'property_id': prop, 'tier': tier, 'seed': int(S), 'level': level, 'coverage': cov,
           'assumptions': list(assumptions), 'wall_s': round(wall, 2), 'violations': reported}
-    os.makedirs(os.path.join(VERIF, 'evidence'), exist_ok=True)
-    with open(os.path.join(VERIF, 'evidence', prop + '.json'), 'w') as f:
+    os.makedirs(os.path.join(OUT, 'evidence'), exist_ok=True)
+    with open(os.path.join(OUT, 'evidence', prop + '.json'), 'w') as f:
         json.dump(ev, f, indent=1, default=str)
     for ln in lines:
         print(ln)
